@@ -1,10 +1,11 @@
 """C05 — mechanisms never spend more privacy than the (eps, delta) budget (real neighbouring runs)."""
 import math
 import numpy as np
-from common import close, rng
+from common import enc_f, dec_f, close, rng
 import mechrun
 
 LEAN_MODULE = 'PGM.Properties.C05'
+LEAN_EXTRA = ['PGM.Properties.C05B']
 NEEDS_GENERATED = True
 TRUSTED = ['Lean 4.33 kernel', 'axioms: propext, Classical.choice, Quot.sound',
            'tools/py2lean.py slices: every budget / scale expression of the four mechanisms is regenerated from mechanisms/*.py on each run; the hand-written ledger skeletons compose them as the control flow does',
@@ -151,6 +152,105 @@ def directed_adagrid_targets(res, r, seed):
         one_pair(res, 'adagrid', dom, rows, rows[:-1], params, seed, 'directed')
 
 
+def adagrid_queries(res, drv, r, seed, tier):
+    """Adaptive Grid: "Q has sensitivity 1 by construction" (C05B.query_sensitivity_le_one / adagrid_queries_sensitivity).  The query
+    matrix of every measured clique is captured from a real run together with the selection (get_identity), the child matrices and the
+    aggregate (get_aggregate); the Lean model rebuilds it from those pieces — it must agree bit for bit — and every column of the
+    implementation's matrix must have Euclidean norm at most 1, the sensitivity the noise scales are calibrated to"""
+    import itertools
+    import mechs
+    m = mechs.load('adagrid')
+    for k in range(2 if tier == 'quick' else 10):
+        dom = r.choice(DOMS)
+        attrs = [a for a, _ in dom]
+        sizes = dict(map(tuple, dom))
+        rows = gen_rows(r, dom, r.choice([60, 200, 600]))
+        params = {'epsilon': r.choice([1.0, 5.0]), 'delta': 1e-6, 'threshold': r.choice([0.5, 1.0, 5.0]),
+                  'targets': r.choice([[], [attrs[-1]], [attrs[-1], attrs[0]] if len(attrs) >= 4 else [attrs[0]]]), 'split_strategy': r.choice([None, [0.2, 0.2, 0.6]])}
+        recs, cur, mats = [], {}, {}
+        o_id, o_agg = m.get_identity, m.get_aggregate
+
+        def get_identity(cl, pp, domain, _f=o_id):
+            Q = _f(cl, pp, domain)
+            cur.clear()
+            cur.update(cl=tuple(cl), sel=sorted(int(i) for i in np.nonzero(Q.diagonal())[0]), n=int(Q.shape[0]))
+            return Q
+
+        def get_aggregate(cl, matrices, domain, _f=o_agg):
+            A = _f(cl, matrices, domain)
+            mats['ref'] = matrices
+            children = [c for c in matrices if set(c) < set(cl) and len(c) + 1 == len(cl)]
+            recs.append(dict(cur, children=[(tuple(c), np.asarray(matrices[c].todense(), dtype=float)) for c in children],
+                             agg=np.asarray(A.todense(), dtype=float)))
+            return A
+        meas_lists = []
+        import mbi
+        o_est = mbi.FactoredInference.estimate
+        m.get_identity, m.get_aggregate = get_identity, get_aggregate
+        try:
+            rec = mechrun.Recorder(seed * 77 + k, None, 20)
+            with mechrun.patched(rec):
+                p_est = mbi.FactoredInference.estimate
+
+                def est(self, measurements, *a, _f=p_est, **kw):
+                    meas_lists.append(list(measurements))
+                    return _f(self, measurements, *a, **kw)
+                mbi.FactoredInference.estimate = est
+                try:
+                    m.adagrid(mechrun.make_dataset(dom, rows), params['epsilon'], params['delta'], params['threshold'], targets=list(params['targets']),
+                              split_strategy=params['split_strategy'], iters=20)
+                finally:
+                    mbi.FactoredInference.estimate = p_est
+        except Exception as e:
+            res.extra.setdefault('raised', []).append({'mechanism': 'adagrid (query capture)', 'error': type(e).__name__ + ': ' + str(e)[:120]})
+            continue
+        finally:
+            m.get_identity, m.get_aggregate = o_id, o_agg
+        canon = {'mechanism': 'adagrid', 'dom': dom, 'rows': rows, 'params': params, 'seed': seed * 77 + k, 'audit': 'query matrices'}
+        res.case(canon, True)
+        final = meas_lists[-1] if meas_lists else []
+        if len(final) != len(recs):
+            res.violation('correspondence', f'adagrid: {len(recs)} query constructions recorded, {len(final)} measurements handed to the estimator', {'request': canon, 'stream': 'C05.adagrid-queries'})
+            continue
+        reqs = []
+        for rc, (Q, y, noise, cl) in zip(recs, final):
+            cl = tuple(cl)
+            cells = list(itertools.product(*[range(sizes[a]) for a in cl]))
+            ch = []
+            for c, Qc in rc['children']:
+                cc = list(itertools.product(*[range(sizes[a]) for a in c]))
+                idx = {x: i for i, x in enumerate(cc)}
+                pos = [cl.index(a) for a in c]
+                ch.append({'Q': [[enc_f(v) for v in row] for row in Qc.tolist()], 'sigma': [idx[tuple(x[i] for i in pos)] for x in cells]})
+            coef = float(1.0 / np.sqrt(len(ch))) if ch else 1.0
+            reqs.append({'op': 'ada_query', 'n': rc['n'], 'sel': rc['sel'], 'coef': enc_f(coef), 'children': ch})
+        resps = drv.run(reqs) if drv else [None] * len(reqs)
+        for rc, (Q, y, noise, cl), o in zip(recs, final, resps):
+            Qd = np.asarray(Q.todense(), dtype=float)
+            res.count('adagrid query matrices audited')
+            if rc['children']:
+                res.count('adagrid query matrices with aggregated child measurements')
+            norms = (Qd ** 2).sum(axis=0)
+            if tuple(cl) != rc['cl'] or norms.max(initial=0.0) > 1.0 + 1e-12:
+                j = int(np.argmax(norms))
+                res.violation('failing-input', f'adagrid: the query matrix measured on {list(cl)} has a column (cell {j}) of squared norm {float(norms[j])!r} > 1: one record changes the released '
+                              f'statistic by more than the sensitivity 1 its noise scale is calibrated to (over-spend factor {float(norms[j]):.3f})', {'request': canon}, key='adagrid:sensitivity')
+                break
+            if o is None:
+                continue
+            if not o['ok']:
+                res.violation('correspondence', 'driver error ' + o['err'], {'request': canon, 'stream': 'C05.adagrid-queries'})
+                break
+            mq = np.array([[dec_f(v) for v in row] for row in o['out']['Q']], dtype=float).reshape(-1, rc['n'])
+            ma = np.array([[dec_f(v) for v in row] for row in o['out']['agg']], dtype=float).reshape(-1, rc['n'])
+            if ma.shape != rc['agg'].shape or not np.array_equal(ma, rc['agg']):
+                res.violation('correspondence', f'adagrid get_aggregate on {list(cl)}: model and implementation differ (shapes {ma.shape} / {rc["agg"].shape})', {'request': canon, 'stream': 'C05.adagrid-queries'})
+                break
+            if mq.shape != Qd.shape or not np.array_equal(mq, Qd):
+                res.violation('correspondence', f'adagrid query matrix on {list(cl)}: model and implementation differ (shapes {mq.shape} / {Qd.shape})', {'request': canon, 'stream': 'C05.adagrid-queries'})
+                break
+
+
 def run(res, drv, tier, seed):
     r = rng(seed, 'C05')
     names = ['mst', 'aim', 'mwem', 'adagrid']
@@ -166,6 +266,7 @@ def run(res, drv, tier, seed):
             one_pair(res, name, dom, rows, rows2, params, seed * 1000 + k, 'directed' if directed else 'random')
     directed_mwem_bounded(res, seed)
     directed_adagrid_targets(res, r, seed)
+    adagrid_queries(res, drv, r, seed, tier)
     # the region excluded by aim_budget's hypothesis, on the real code
     dom = DOMS[1]
     rows = gen_rows(r, dom, 40)
